@@ -20,11 +20,13 @@ pub struct Fee {
     pub rewarded: bool,
     /// additional bSei-only seeds (threshold, slash) where the rate lands exactly on the threshold
     pub exact: Vec<(&'static str, (u128, u128))>,
+    /// the owner re-sends UpdateParams with only the epoch period set: the fee parameters must stay as configured
+    pub with_param_update: bool,
 }
 
 impl Fee {
     pub fn base(label: &str) -> Fee {
-        Fee { label: label.into(), fees: vec!["0", "0.005", "0.5", "1"], thresholds: vec!["0", "0.95", "1"], slashes: vec![(1, 10), (1, 100)], scale: 1, users: vec![ALICE, BOB], rewarded: false, exact: vec![] }
+        Fee { label: label.into(), fees: vec!["0", "0.005", "0.5", "1"], thresholds: vec!["0", "0.95", "1"], slashes: vec![(1, 10), (1, 100)], scale: 1, users: vec![ALICE, BOB], rewarded: false, exact: vec![], with_param_update: false }
     }
 }
 
@@ -114,6 +116,9 @@ impl Scenario for Fee {
             if s > 1 {
                 v.push(unbond(u, STSEI, s / 2));
             }
+        }
+        if self.with_param_update {
+            v.push(exec("update_params(epoch_period only)".into(), OWNER, HUB, serde_json::json!({"update_params":{"epoch_period":10,"unbonding_period":null,"peg_recovery_fee":null,"er_threshold":null,"reward_denom":null,"paused":null}}), &[]));
         }
         v
     }
